@@ -385,7 +385,7 @@ def r7_typed_front_ends(ctx):
         align = sh(ne(f.deep(ar[0].args[2]))).replace(" ", "")
         mirror = "Mul(count,size_of())"
         # the product as a checked multiplication whose failure panics (expect / unwrap) is the same request
-        m = re.match(r"^(?:expect|unwrap)\(checked_mul\((size_of\(\),count|count,size_of\(\))\)(?:,\"[^\"]*\")?\)$", size)
+        m = re.match(r"^(?:expect|unwrap)\(checked_mul\(([a-z_]+\(\),count|count,[a-z_]+\(\))\)(?:,\"[^\"]*\")?\)$", size)
         checked = bool(m)
         if m:
             size = "Mul(%s)" % m.group(1)
